@@ -496,6 +496,7 @@ func c12WideUniverse() *c12Universe {
 	add(opNickModes, "a", "", "+Bowxz-w")
 	add(opNickModes, "me", "", "+iw-i+y") // y: not a user mode we track, ignored
 	add(opNickModes, "", "", "+i")
+	add(opNickModes, "me", "", "i+w") // no leading sign: the first letter is a removal
 	for _, o := range u.Nicks {
 		for _, n := range u.Nicks {
 			add(opReNick, o, n) // includes ReNick(n,n), used targets, the empty name
@@ -513,6 +514,8 @@ func c12WideUniverse() *c12Universe {
 		{"+ov", "a", "b"}, {"+ov", "me", "a"}, {"-o+v", "a", "a"},
 		{"+kl", "key", "5"}, {"-k+n"}, {"-k"}, {"+l", "x"}, {"+k"}, {"+l"}, {"-l"}, {"+o"},
 		{"+nt-n+ims"}, {"+qah", "a", "a", "a"}, {"+zZOrp-z"}, {"+o", ""},
+		// no leading sign: letters before the first sign are removals (the documented initial state of the parser)
+		{"o", "a"}, {"n"}, {"t+n"}, {"v+o", "a", "a"},
 	} {
 		add(opChannelModes, "#x", "", x...)
 	}
